@@ -70,6 +70,7 @@ func sweepTables() map[string]interface{} {
 	var v1, v2 []string
 	dist := map[string]int{"byzantium": 0, "constantinople": 0, "istanbul": 0}
 	dist2 := map[string]int{"byzantium": 0, "constantinople": 0, "istanbul": 0}
+	distOut := map[string][]string{"byzantium": {}, "constantinople": {}, "istanbul": {}}
 	var diffV1, diffV2, onlyKVM []string
 	nv1, nv2, nist := 0, 0, 0
 	for op := 0; op < 256; op++ {
@@ -90,9 +91,15 @@ func sweepTables() map[string]interface{} {
 		for f, ok := range map[string]bool{"byzantium": r.byz, "constantinople": r.con, "istanbul": r.ist} {
 			if ok != r.v1 {
 				dist[f]++
+				if !isBlockCtx(byte(op)) {
+					distOut[f] = append(distOut[f], "v1:"+name)
+				}
 			}
 			if ok != r.v2 {
 				dist2[f]++
+				if !isBlockCtx(byte(op)) {
+					distOut[f] = append(distOut[f], "v2:"+name)
+				}
 			}
 		}
 		if r.v1 != r.ist {
@@ -114,6 +121,7 @@ func sweepTables() map[string]interface{} {
 		"v1_vs_istanbul":                  diffV1,
 		"v2_vs_istanbul":                  diffV2,
 		"valid_only_in_kvm":               onlyKVM,
+		"differences_outside_0x40_0x48":   distOut,
 		"note":                            "validity = a program of 17 PUSHes followed by the opcode does not end with 'invalid opcode'; 0x44 is GASLIMIT in the KVM and DIFFICULTY in Ethereum (both valid)",
 	}
 }
@@ -122,7 +130,7 @@ func sweepTables() map[string]interface{} {
 // asserted, then the instruction is executed on fixed operand vectors through the
 // full oracle.
 func sweepCase(c *core.Case) {
-	op := byte(c.I)
+	op := byte(c.I * 37) // a permutation of 0..255 that spreads the expensive two-operand instructions over the child processes
 	run := c.Run
 	var row sweepRow
 	if c.Guard("opcode sweep", func() interface{} { return fmt.Sprintf("opcode 0x%02x", op) }, func() { row = sweepOne(op) }) {
@@ -939,7 +947,11 @@ func corpusCase(c *core.Case) {
 			if os.Getenv("C10_DEBUG") != "" {
 				fmt.Fprintln(os.Stderr, "CORPUS VIOLATION", s.name, what)
 			}
-			c.Violation("corpus:"+s.name, what, map[string]interface{}{"case": w.witness(), "kvm": summary(k)})
+			key := "corpus:" + s.name
+			if s.name == "returndata-is-a-copy" && k.RDataAlias {
+				key = keyRDataAlias
+			}
+			c.Violation(key, what, map[string]interface{}{"case": w.witness(), "kvm": summary(k)})
 		}
 	}
 }
